@@ -713,6 +713,14 @@ func (e *twEngine) wDump(p *twPool, pr *twPair) {
 }
 
 func (e *twEngine) wRandDt(allowSame bool) time.Duration {
+	d := e.wRandDt0(allowSame)
+	if d > 0 && e.r.Intn(5) == 0 {
+		d = e.shapeSubMs(e.h.Ctx.BlockTime(), d, "")
+	}
+	return d
+}
+
+func (e *twEngine) wRandDt0(allowSame bool) time.Duration {
 	r := e.r
 	if allowSame && e.w.sameTime < 2 && r.Intn(4) == 0 {
 		e.o.Count("class.world.block-repeats-timestamp")
@@ -776,9 +784,12 @@ func (e *twEngine) wAskAll() []*twQuery {
 			for _, geom := range []bool{false, true} {
 				var pair []*twQuery
 				for _, q0 := range []bool{true, false} {
-					q := &twQuery{s: s, e: en, q0: q0, geom: geom, w: e.wq}
+					q := &twQuery{s: s, e: en, q0: q0, geom: geom, w: e.wq, rep: e.pickRep()}
 					e.ask(q, false)
 					e.o.Emit(q.op(now), q.obs(), q.status == "ok")
+					if q0 {
+						e.locCheck(q, now, 1)
+					}
 					e.judge(q, now)
 					out = append(out, q)
 					pair = append(pair, q)
@@ -846,7 +857,7 @@ func (e *twEngine) wPruneRound() {
 		}
 		p, pr := e.wPairOf(b)
 		e.view(p, pr)
-		a := &twQuery{s: b.s, e: b.e, q0: b.q0, geom: b.geom, w: b.w}
+		a := &twQuery{s: b.s, e: b.e, q0: b.q0, geom: b.geom, w: b.w, rep: e.pickRep()}
 		e.ask(a, false)
 		e.o.Emit(a.op(now2), a.obs(), a.status == "ok")
 		e.judge(a, now2)
